@@ -171,6 +171,18 @@ static std::string str_from(const std::string &route, const Mode &md, const std:
         Block<T> in = units<T>(u, 1);
         return strinfo(md.dflt ? Fam<T>::from(in.data(), ST_AUTO_SIZE) : Fam<T>::from(in.data(), ST_AUTO_SIZE, md.m));
     }
+    if (route == "ctorcstr") {      // constructor with the size left as ST_AUTO_SIZE
+        Block<T> in = units<T>(u, 1);
+        if (md.dflt) { ST::string s(in.data()); return strinfo(s); }
+        ST::string s(in.data(), ST_AUTO_SIZE, md.m);
+        return strinfo(s);
+    }
+    if (route == "setcstr") {       // set() with the size left as ST_AUTO_SIZE
+        Block<T> in = units<T>(u, 1);
+        ST::string s(PREVIOUS);
+        if (md.dflt) s.set(in.data()); else s.set(in.data(), ST_AUTO_SIZE, md.m);
+        return strinfo(s);
+    }
     if (route == "ctor") {
         Block<T> in = units<T>(u);
         if (md.dflt) { ST::string s(in.data(), in.size()); return strinfo(s); }
